@@ -95,7 +95,8 @@ Proof. exact tprocess_abstracts. Qed.
    local definition of the same name (gdef_safe, checked along the evaluation; there plasTeX deviates from TeX by design),
    the engine started on the printed tokens of p terminates without raising; the character tokens it yields are exactly the
    words den computes, in order; all groups are closed; and the global frame of the context holds, for every macro, exactly
-   the (printed) body den's global frame holds, the primitives being untouched. *)
+   the (printed) body den's global frame holds, the primitives being untouched (every name that is neither a macro name zq.. nor of
+   the switch family - swkey - has its meaning of the base context). *)
 Theorem C02_engine_simulates_F1 :
   forall (fuel : nat) (p : list node) (e : env) (out : list Z),
     in_F1 p = true -> den fuel p = Ok e out -> gdef_safe fuel p = true ->
@@ -104,7 +105,7 @@ Theorem C02_engine_simulates_F1 :
       text_of T = words_text (rev out) /\
       ups st' = [] /\
       (forall id, findm (mname id) (bottom st') = option_map mean_of (alookup id (last (frames e) []))) /\
-      (forall k, (forall id, k <> mname id) -> findm k (bottom st') = findm k base_frame).
+      (forall k, (forall id, k <> mname id) -> swkey k = false -> findm k (bottom st') = findm k base_frame).
 Proof. exact engine_simulates_F1. Qed.
 
 (* fuel never changes an answer of the engine *)
@@ -142,7 +143,7 @@ Theorem C02_engine_simulates_F2 :
       text_of T = words_text (rev out) /\
       ups st' = [] /\
       (forall id, findm (mname id) (bottom st') = option_map mean_of (alookup id (last (frames e) []))) /\
-      (forall k, (forall id, k <> mname id) -> findm k (bottom st') = findm k base_frame).
+      (forall k, (forall id, k <> mname id) -> swkey k = false -> findm k (bottom st') = findm k base_frame).
 Proof. exact engine_simulates_F2. Qed.
 
 (* textual substitution at both levels: for a body of a macro with n <= 9 parameters and arguments without parameters,
